@@ -83,6 +83,8 @@ func (e *Engine) lockModel(f *Frame, st *State, callee *ssa.Function, cc *ssa.Ca
 			return Val{T: types.NewTuple()}, true
 		}
 		if strings.HasPrefix(s, "(*sync/atomic.") {
+			// site "call Load#k" / "call Store#k" / ...: assertions about what is published through an atomic cell
+			e.siteCall(f, st, callee.Name(), args, pos)
 			return e.atomicModel(f, st, callee, cc, args, pos)
 		}
 		return Val{}, false
@@ -96,6 +98,8 @@ func (e *Engine) lockModel(f *Frame, st *State, callee *ssa.Function, cc *ssa.Ca
 	e.lockOps = true
 	switch {
 	case strings.HasSuffix(s, ".Lock") || strings.HasSuffix(s, ".RLock"):
+		// site "call Lock#k" / "call RLock#k": assertions about the state in which a critical section is entered
+		e.siteCall(f, st, callee.Name(), args, pos)
 		if st.locks[key] {
 			e.ob(f, "lock.reentrant", "lock "+class+" acquired while already held (self-deadlock)", st.cond, "false", pos)
 		}
